@@ -45,7 +45,11 @@ def run(rep, tier):
     br = common.guarded(rep, "C03.2", c03.c03_2, rep, ix, M)
     if br:
         common.guarded(rep, "C03.3", c03.c03_3, rep, ix, M, cc, br)
+        common.guarded(rep, "C03.9", c03.c03_9, rep, ix, M, cc, br)
     common.guarded(rep, "C02.7", c02_7, rep, ix, M)
+    # "the script": the text the caller passed is the text that is lexed and parsed (pipeline integrity, shared with C10 / C18)
+    from . import c10
+    common.guarded(rep, "C10.2", c10.c10_2, rep, ix)
     common.guarded(rep, "C02.6", c02_6, rep, ix)      # loop bodies execute only in the replay: one entry per executed statement
 
 
